@@ -1,4 +1,7 @@
 fn main() -> Result<(), Box<dyn std::error::Error>> {
+    println!("cargo::rustc-check-cfg=cfg(nexosim_verif)");
+    println!("cargo::rustc-check-cfg=cfg(nexosim_verif_shuttle)");
+
     #[cfg(nexosim_grpc_codegen)]
     tonic_build::configure()
         .build_client(false)
